@@ -12,7 +12,7 @@ func init() {
 		ID:          "C17",
 		Run:         runC17,
 		MinObl:      14,
-		Explanation: "Decided: R1 in the PAR continuation of NewAuthorizeRequest the isPAR==true exit requires DeletePARSession(same uri) to have returned nil and client_id(form) == client id of the stored pushed request; R2 RedirectURI/ResponseTypes/State/ResponseMode are written from the stored request's getters, Merge(stored) runs, and after the PAR branch returned true no field of the request is written before NewAuthorizeRequest returns; R3 the stored par_context expiry is read and compared with now on every isPAR==true path (or the stored session is nil); R4 push endpoint: success requires AuthenticateClient nil, an empty request_uri parameter, the form's client_id to be the authenticated client's id before the shared authorize-request pipeline loads the client from it, the pipeline's nil error, and redirect_uri for openid requests; handler: transport check, scope ForAll and audience strategy, request URI = configured prefix + encoding of ≥32 random bytes from hmac.RandomBytes, the URI stored is the URI returned, expires_in derives from the same lifespan term as the stored expiry; R5 without a pushed request the authorization endpoint proceeds to the client lookup only if PAR is not enforced. NOT decided: histories (one-time use across concurrent authorizations), other stores.",
+		Explanation: "Decided: R1 in the PAR continuation of NewAuthorizeRequest the isPAR==true exit requires DeletePARSession(same uri) to have returned nil and client_id(form) == client id of the stored pushed request; R2 RedirectURI/ResponseTypes/State/ResponseMode are written from the stored request's getters, Merge(stored) runs, and after the PAR branch returned true no field of the request is written before NewAuthorizeRequest returns; R3 the stored par_context expiry is read and compared with now on every isPAR==true path (or the stored session is nil); R4 push endpoint: success requires AuthenticateClient nil, an empty request_uri parameter, the form's client_id to be the authenticated client's id before the shared authorize-request pipeline loads the client from it, the pipeline's nil error, and redirect_uri for openid requests; handler: transport check, scope ForAll and audience strategy, request URI = configured prefix + encoding of ≥32 random bytes from hmac.RandomBytes, the URI stored is the URI returned, expires_in derives from the same lifespan term as the stored expiry; R5 without a pushed request the authorization endpoint proceeds to the client lookup only if PAR is not enforced. R1 also requires the caller's client_id to have been read from the form before Merge copied the pushed parameters into that same form (evaluation clock of the read vs. the Merge event). NOT decided: histories (one-time use across concurrent authorizations), other stores.",
 	})
 }
 
@@ -232,8 +232,12 @@ func c17Push(c *Ctx) {
 		for _, f := range p.Facts {
 			if f.Atom.Kind == "EQ" && f.Pol {
 				for _, pr := range [][2]*Term{{f.Atom.A, f.Atom.B}, {f.Atom.B, f.Atom.A}} {
+					// read from the form the request is built from (body and query), not from a part of it
 					if pr[0].IsCall(".Get") && len(pr[0].Args) == 2 && pr[0].Args[1].Key() == tStr("request_uri").Key() && pr[1].Key() == tStr("").Key() {
-						foundU = true
+						src := pr[0].Args[0]
+						if src.Op == "field" && src.Name == "Form" || src.IsCall(".GetRequestForm") {
+							foundU = true
+						}
 					}
 				}
 			}
@@ -447,6 +451,26 @@ func c17Merge(c *Ctx) {
 			usesOwn := v.Mentions(func(t *Term) bool { return t.Op == "field" && t.Name == "Form" && addrRoot(t).Key() == a.Key() })
 			if !v.Contains(want.Key()) || usesOwn {
 				ok, w, why = false, p, "the receiver's form value for a merged key is "+clip(v.Pretty(), 100)+": it must be exactly the merged request's value (the receiver's own value may not survive)"
+			}
+		}
+	}
+	// every key of the merged request is written, unconditionally: an iteration that does not store
+	// (a "don't clobber" guard) lets the receiver's own value survive
+	for _, p := range ex.Paths {
+		iterated, written := map[string]bool{}, map[string]bool{}
+		for _, f := range p.Facts {
+			if f.Atom.Kind == "B" && f.Pol && f.Atom.A.IsCall("hasnext") && len(f.Atom.A.Args) == 2 && f.Atom.A.Args[0].Contains(srcForm.Key()) {
+				iterated[f.Atom.A.Args[1].Key()] = true
+			}
+		}
+		for _, e := range p.Events {
+			if e.Kind == "mapupdate" && e.Args[0].Op == "field" && e.Args[0].Name == "Form" && e.Args[1].Op == "rangekey" && len(e.Args[1].Args) == 2 {
+				written[e.Args[1].Args[1].Key()] = true
+			}
+		}
+		for k := range iterated {
+			if !written[k] {
+				ok, w, why = false, p, "an iteration over the merged request's form (element "+k+") does not store into the receiver's form"
 			}
 		}
 	}
